@@ -18,6 +18,9 @@ CLAIMED = {
  "C12": ("exploration", "invariant monitor on /metadata snapshots + panic capture",
    "Same histories; stored-state invariants, the broker's own consistency check, panics (catch_unwind) and refused-allocation atomicity after every operation; host spread of new chunks and replacements against the free pool of the preceding snapshot.",
    "section 2, C12"),
+ "C02": ("exploration", "whole-system monitor with frozen migration phases + backend execution logs",
+   "Broker, coordinator encoding, real proxies and FakeRedis in memory; migration phases frozen by gates on the handshake messages; probes from member proxies over range boundaries and random slots in every frozen state; executions compared with the broker-designated node, redirections counted, parked commands followed until release.",
+   "section 2, C02"),
  "C05": ("exploration", "reference-model monitor + linearizability checker over recorded reply histories",
    "Sequential SETCLUSTER/SETREPL sequences against a reference model with unique message contents (routing probes and INFOREPL identify the installed message); concurrent deliveries on a multi-thread runtime checked for linearizability of replies, epoch monotonicity and routing-not-older-than-epoch.",
    "section 2, C05"),
